@@ -166,10 +166,11 @@ type ImplRef struct {
 
 // TypeRef is one syntactic mention of a named type.
 type TypeRef struct {
-	Type  *TypeDecl
-	Ptr   bool
-	Via   *TypeDecl // alias declaration used instead of the name (C13)
-	Paren bool      // (T) where allowed
+	Type     *TypeDecl
+	Ptr      bool
+	Via      *TypeDecl // alias declaration used instead of the name (C13)
+	Paren    bool      // (T) where allowed
+	ParenAll bool      // (*T): parentheses around the whole pointer type (receivers)
 }
 
 type Var struct {
